@@ -145,7 +145,7 @@ package uu
 //@   ensures own_array_when_started_from_nothing: imp(cap(dst) == 0 && len(src) > 0, fresh(res))
 //@   before "dst = append(dst, byte(uuOffset+len(line)))": assert(byte(uuOffset+len(line)) == old(encByte(src, 62*k)), "length_char_is_perls")
 //@   before "dst = append(dst, enc[0], enc[1], enc[2], enc[3])": assert(forall(p, 0 <= p && p < 62*k + 1 + 4*j, dst[len(old(dst))+p] == old(encByte(src, p))), "encoded"); assert(enc[0] == old(encByte(src, 62*k + 1 + 4*j)), "char0_is_perls"); assert(enc[1] == old(encByte(src, 62*k + 2 + 4*j)), "char1_is_perls"); assert(enc[2] == old(encByte(src, 62*k + 3 + 4*j)), "char2_is_perls"); assert(enc[3] == old(encByte(src, 62*k + 4 + 4*j)), "char3_is_perls")
-//@   after "dst = append(dst, enc[0], enc[1], enc[2], enc[3])": assert(forall(p, 0 <= p && p < 62*k + 1 + 4*j, dst[len(old(dst))+p] == prev(dst[len(old(dst))+p])), "append_keeps_earlier_output"); assert(forall(p, 0 <= p && p < 62*k + 1 + 4*j, dst[len(old(dst))+p] == old(encByte(src, p))), "earlier_output_still_encoded"); assert(dst[len(old(dst)) + 62*k + 1 + 4*j] == old(encByte(src, 62*k + 1 + 4*j)), "stored_char0"); assert(dst[len(old(dst)) + 62*k + 2 + 4*j] == old(encByte(src, 62*k + 2 + 4*j)), "stored_char1"); assert(dst[len(old(dst)) + 62*k + 3 + 4*j] == old(encByte(src, 62*k + 3 + 4*j)), "stored_char2"); assert(dst[len(old(dst)) + 62*k + 4 + 4*j] == old(encByte(src, 62*k + 4 + 4*j)), "stored_char3"); assert(forall(p, 62*k + 1 + 4*j <= p && p < 62*k + 5 + 4*j, p == 62*k + 1 + 4*j || p == 62*k + 2 + 4*j || p == 62*k + 3 + 4*j || p == 62*k + 4 + 4*j, trig(dst[len(old(dst))+p])), "four_new_positions"); assert(forall(p, 62*k + 1 + 4*j <= p && p < 62*k + 5 + 4*j, dst[len(old(dst))+p] == old(encByte(src, p))), "new_output_encoded")
+//@   after "dst = append(dst, enc[0], enc[1], enc[2], enc[3])": assert(forall(p, 0 <= p && p < 62*k + 1 + 4*j, dst[len(old(dst))+p] == prev(dst[len(old(dst))+p])), "append_keeps_earlier_output"); assert(forall(p, 0 <= p && p < 62*k + 1 + 4*j, dst[len(old(dst))+p] == old(encByte(src, p))), "earlier_output_still_encoded"); assert(dst[len(old(dst)) + 62*k + 1 + 4*j] == old(encByte(src, 62*k + 1 + 4*j)), "stored_char0"); assert(dst[len(old(dst)) + 62*k + 2 + 4*j] == old(encByte(src, 62*k + 2 + 4*j)), "stored_char1"); assert(dst[len(old(dst)) + 62*k + 3 + 4*j] == old(encByte(src, 62*k + 3 + 4*j)), "stored_char2"); assert(dst[len(old(dst)) + 62*k + 4 + 4*j] == old(encByte(src, 62*k + 4 + 4*j)), "stored_char3"); assert(forall(p, 62*k + 1 + 4*j <= p && p < 62*k + 5 + 4*j, p == 62*k + 1 + 4*j || p == 62*k + 2 + 4*j || p == 62*k + 3 + 4*j || p == 62*k + 4 + 4*j, trig(dst[len(old(dst))+p]), trig(old(encByte(src, p)))), "four_new_positions"); assert(forall(p, 62*k + 1 + 4*j <= p && p < 62*k + 5 + 4*j, dst[len(old(dst))+p] == old(encByte(src, p)), trig(old(encByte(src, p)))), "new_output_encoded", "stored_char0", "stored_char1", "stored_char2", "stored_char3", "four_new_positions")
 //@   before "dst = append(dst, '\\n')": assert(old(encByte(src, 62*k + 1 + 4*j)) == '\n', "newline_is_perls")
 //@   loop 1 counter k
 //@     invariant origin: imp(k == 0, dst == old(dst)) && imp(cap(old(dst)) == 0 && k > 0, fresh(dst))
